@@ -8,7 +8,9 @@ package main
 
 import (
 	"bytes"
+
 	"fmt"
+	goat "github.com/philhassey/goatlang"
 	"os"
 	"os/exec"
 	"path/filepath"
@@ -164,7 +166,12 @@ func RunGoat(p GoProg) (status, out string) {
 	}
 	sb.WriteString(p.Src)
 	sb.WriteString("\nmain()\n")
+	goat.VerifSetBudget(2000000)
 	o, err := runScript(sb.String())
+	goat.VerifSetBudget(-1)
+	if err != nil && strings.Contains(err.Error(), "budget exhausted") {
+		return "budget", o
+	}
 	if err != nil {
 		if strings.Contains(err.Error(), "PANIC") {
 			return "escaped", o + err.Error()
